@@ -89,10 +89,20 @@ def gen_request(rng, last=False, allow_head=True):
         conn = "keep-alive"
     elif c == 2:
         conn = rng.choice(["Close", "Keep-Alive", "KEEP-ALIVE"])
+    tokens = [conn.lower()] if conn else []
     if conn:
+        k = rng.randrange(8)
+        if k == 0:
+            # Connection is a list of options (RFC 9110 7.6.1): 'close' may come with others, in any position, or on a second line
+            other = rng.choice(["TE", "x-opt", "Upgrade"])
+            conn = rng.choice(["%s, %s" % (conn, other), "%s, %s" % (other, conn), "%s , %s" % (other, conn), "%s,%s" % (conn, other)])
+            tokens.append(other.lower())
         lines.append("Connection: " + conn)
+        if k == 1:
+            lines.append("Connection: close")
+            tokens.append("close")
     if rng.randrange(12) == 0 and method in ("POST", "PUT"):
         lines.append("Expect: 100-continue")
-    wants_close = (conn or "").lower() == "close" or (version == "HTTP/1.0" and (conn or "").lower() != "keep-alive")
+    wants_close = "close" in tokens or (version == "HTTP/1.0" and "keep-alive" not in tokens)
     return {"bytes": "\r\n".join(lines) + "\r\n\r\n" + wire_body, "method": method,
             "version": [1, int(version[7])], "wants_close": wants_close, "body": body}
